@@ -4,7 +4,8 @@
                  names the reading of Go's encoding/json: the last one wins, at the
                  position of the first; numbers exact).
      cue_data    what /repo does with the document once it is CUE source (Impl layer):
-                 numbers go through literal.ParseNum and apd (Json/Cue.v), members with
+                 numbers go through literal.ParseNum and apd (Json/Cue.v; a number outside
+                 apd's exponent range is an error -> the document is rejected), members with
                  the same name are UNIFIED (equal scalars and numerically equal numbers
                  of one kind are accepted, structs merge, lists unify element-wise,
                  anything else is a conflict -> the document is rejected).
@@ -15,7 +16,6 @@ Inductive data :=
 | DNull
 | DBool (b : bool)
 | DNum (isint : bool) (d : dec)
-| DNaN (isint : bool)
 | DStr (s : list N)
 | DList (l : list data)
 | DObj (l : list (list N * data)).
@@ -54,8 +54,7 @@ Fixpoint spec_data (v : jvalue) : data :=
 (* ---------------------------------------------------------------- Impl ---- *)
 Definition cue_num (n : jnum) : option data :=
   match cue_read_number (print_num n) with
-  | Some (isint, CFin d) => Some (DNum isint d)
-  | Some (isint, CNaN) => Some (DNaN isint)
+  | Some (isint, d) => Some (DNum isint d)
   | None => None
   end.
 
@@ -168,8 +167,9 @@ Fixpoint dup_keys (v : jvalue) : bool :=
   | _ => false
   end.
 
-(* the number is outside what apd.SetString represents: the exponent text, the
-   fraction length or the adjusted exponent leaves [-100000, 100000] *)
+(* the number is inside what apd.SetString represents: the exponent text, the
+   fraction length and the adjusted exponent stay within [-100000, 100000]; outside,
+   NumInfo.decimal reports an error and the document is rejected *)
 Definition num_in_range (n : jnum) : bool :=
   let e := match jexp n with Some e => e | None => 0%Z end in
   let fl := Z.of_nat (length (jfrac n)) in
